@@ -9,6 +9,7 @@ parses back to itself (`SriRT`; true of every integrity in canonical form, `pars
 -/
 import Cacache.Lemmas.DeclRefine
 import Cacache.Lemmas.Gaps
+import Cacache.Lemmas.HeldWriter3
 
 namespace Cacache.C08x
 open Prog Refine CacheRefine DeclRefine
@@ -111,5 +112,45 @@ theorem putHash_wrong_size_total (env : Env) (fl : Flavour) (o : WriteOpts) (chu
     Healthy cfg cache (run env (writeStream cfg cache fl none o chunks) fs).2.1 ∧
     TmpClean cache fs (run env (writeStream cfg cache fl none o chunks) fs).2.1 :=
   Gaps.putHash_wrong_size_total cfg cache env fl o chunks fs h hl n hs hz hne
+
+
+open HeldWriter in
+/-- **A declared integrity on a writer HELD OPEN across other operations** (from `Lemmas/HeldWriter3.lean`).  Open and
+feed a keyed writer from a healthy cache (`fs1`); let `fs2` be any healthy state in which its temp file is untouched
+(what every operation of the library but `clear` guarantees: `C02x.ops_preserve_tmp`); commit from `fs2`:
+* the declaration is NOT satisfied by the bytes fed: exactly the integrity error, the abstract index is unchanged -
+  every lookup of every key as in `fs2` -, the store gains the address of the bytes (the model, like the code,
+  publishes the content before the check), healthy, temp file gone;
+* it IS satisfied (declared size absent or right, Rust-typed options): ok with the DECLARED integrity, the key maps to
+  the declared entry, other keys as in `fs2`, healthy, temp file gone. -/
+theorem held_commit_declared (env env' : Env) (fl : Flavour) (k : Bytes) (o : WriteOpts)
+    (chunks : List Bytes) (fs0 fs1 fs2 : FS) (w : Writer)
+    (h0 : Healthy cfg cache fs0) (hl : HexLen cfg)
+    (hopen : (run env (heldOpen cfg cache fl (some k) o chunks) fs0).1 = .ok w)
+    (hfs1 : (run env (heldOpen cfg cache fl (some k) o chunks) fs0).2.1 = fs1)
+    (h2 : Healthy cfg cache fs2)
+    (hkeep : fs2.get w.tmp = fs1.get w.tmp)
+    (s : Integrity) (hs : o.sri = some s) :
+    (Sri.declaredOk s (Sri.compute cfg.H (o.algo.getD .sha256) chunks.flatten) = none →
+      (run env' (wcommit cfg w) fs2).1 = .error .integrity ∧
+      absIndex cfg cache (run env' (wcommit cfg w) fs2).2.1 = absIndex cfg cache fs2 ∧
+      absStore cache (run env' (wcommit cfg w) fs2).2.1 =
+        (absStore cache fs2).set (o.algo.getD .sha256)
+          (Bytes.hex (cfg.H (o.algo.getD .sha256) chunks.flatten)) (some chunks.flatten) ∧
+      Healthy cfg cache (run env' (wcommit cfg w) fs2).2.1 ∧
+      (run env' (wcommit cfg w) fs2).2.1.get w.tmp = none) ∧
+    ((Sri.declaredOk s (Sri.compute cfg.H (o.algo.getD .sha256) chunks.flatten)).isSome →
+      (o.size = none ∨ o.size = some chunks.flatten.length) → PutWF' k o chunks →
+      (run env' (wcommit cfg w) fs2).1 = .ok s ∧
+      absIndex cfg cache (run env' (wcommit cfg w) fs2).2.1 k =
+        some { key := k, sri := s, time := stamp env' o, size := chunks.flatten.length,
+               metadata := o.metadata.getD .null, raw := o.raw } ∧
+      (∀ k', k' ≠ k → absIndex cfg cache (run env' (wcommit cfg w) fs2).2.1 k' = absIndex cfg cache fs2 k') ∧
+      absStore cache (run env' (wcommit cfg w) fs2).2.1 =
+        (absStore cache fs2).set (o.algo.getD .sha256)
+          (Bytes.hex (cfg.H (o.algo.getD .sha256) chunks.flatten)) (some chunks.flatten) ∧
+      Healthy cfg cache (run env' (wcommit cfg w) fs2).2.1 ∧
+      (run env' (wcommit cfg w) fs2).2.1.get w.tmp = none) :=
+  HeldWriter3.held_commit_declared cfg cache env env' fl k o chunks fs0 fs1 fs2 w h0 hl hopen hfs1 h2 hkeep s hs
 
 end Cacache.C08x
